@@ -246,6 +246,36 @@ def mp_worker(acc, shard, nshards, tier, seed):
                                 acc.violation('real_pool', 'distance_matrix(parallel,use_mp)', 'c' if use_c else 'py',
                                               {'part': 'multiprocessing-real', 'ndim': nd, 'use_c': use_c}, case, serial,
                                               repr(got) if isinstance(got, core.Exc) else [float(x) for x in got])
+    # state left behind inside a chunk (seed C07g): every ORDER of a collection whose short pairs precede pairs that need warping,
+    # so that each kind of pair is at some point the first / a later task of a chunk; one worker (chunks of 2) and two
+    L1, L2 = [b, b, b, a + b], [b, a + b, a + b, a + b]
+    base = [np.array(x, dtype=float) for x in ([b], [a + b], L1, L2)]
+    for k, perm in enumerate(itertools.permutations(range(4))):
+        if k % nshards != shard:
+            continue
+        series = [base[i] for i in perm]
+        for use_c in (False, True):
+            case = {'ndim': 1, 'n': 4, 'block': None, 'use_c': use_c, 'settings': {}, 'series': [x.tolist() for x in series]}
+            serial = [float(x) for x in dtw.distance_matrix(series, compact=True, parallel=False, use_c=use_c)]
+            acc.trans()
+            for P in (1, 2):
+                VirtualPool.processes = P
+                VirtualPool.log = []
+                multiprocessing.Pool = VirtualPool
+                try:
+                    for order in (list(itertools.permutations(range(4))) if P == 1 else [tuple(range(6)), tuple(reversed(range(6)))]):
+                        VirtualPool.order = order
+                        got = core.call(dtw.distance_matrix, series, compact=True, parallel=True, use_mp=True, use_c=use_c)
+                        acc.trans()
+                        acc.valid()
+                        if isinstance(got, core.Exc) or [float(x) for x in got] != serial:
+                            acc.violation('pool_chunk_state', 'distance_matrix(parallel,use_mp)', 'c' if use_c else 'py',
+                                          {'part': 'multiprocessing', 'ndim': 1, 'use_c': use_c, 'block_none': True},
+                                          dict(case, P=P, completion_order=order), serial, repr(got) if isinstance(got, core.Exc) else [float(x) for x in got])
+                            break
+                finally:
+                    multiprocessing.Pool = real_pool
+            acc.case('mp-virtual-pool-orders', nontrivial=True)
     # the OpenMP route through Cython under the real libgomp (one real schedule per configuration)
     if shard == 0:
         for nd in (1, 2):
